@@ -46,6 +46,34 @@ def branch_atoms(fn, resolve_locals=False):
 ASSERT_MACROS = ("ASMJIT_ASSERT", "ASMJIT_ASSUME", "ASMJIT_NOT_REACHED")
 
 
+def _implied_atoms(fn, cond, value):
+    """atoms (id, holds) implied by the whole condition having `value`: every conjunct of a top-level `&&` chain when it is true,
+    every disjunct (negated) of a top-level `||` chain when it is false; `!` and __builtin_expect are looked through"""
+    out = []
+
+    def walk(e, val, depth=0):
+        e = fn.strip(e)
+        x = fn.e(e)
+        if x is None or depth > 12:
+            return
+        if x["k"] == "unop" and x["op"] == "!":
+            walk(x["sub"], not val, depth + 1)
+        elif x["k"] == "call" and x.get("cn") == "__builtin_expect" and x.get("args"):
+            walk(x["args"][0], val, depth + 1)
+        elif x["k"] == "binop" and x["op"] == "&&" and val:
+            walk(x["lhs"], True, depth + 1)
+            walk(x["rhs"], True, depth + 1)
+        elif x["k"] == "binop" and x["op"] == "||" and not val:
+            walk(x["lhs"], False, depth + 1)
+            walk(x["rhs"], False, depth + 1)
+        elif x["k"] == "binop" and x["op"] in ("&&", "||"):
+            return
+        else:
+            out.append((e, val))
+    walk(cond, value)
+    return out
+
+
 class Must:
     def __init__(self, fn, elem_fx=None, edge_fx=None, init=frozenset(), resolve_locals=False, pseudo=False):
         """elem_fx(eid, x) -> (adds, kills) or None;  edge_fx(block, succ_index, atom, holds) -> adds
@@ -95,7 +123,17 @@ class Must:
                 # the condition of an assertion is not a check: release builds do not evaluate it
                 self.edge_cache[key] = frozenset()
             else:
-                self.edge_cache[key] = frozenset(self.edge_fx(b, si, atom, holds) or ())
+                adds_ = set(self.edge_fx(b, si, atom, holds) or ())
+                # `if (A && B && C)` whose value is materialised in a join block (all short-circuit edges meet in the block that tests
+                # the whole conjunction): the true edge implies every conjunct, the false edge of `A || B || C` every negated disjunct
+                term = self.fn.blocks[b].get("term") or {}
+                if term.get("cond") is not None and len(self.fn.blocks[b]["succs"]) == 2:
+                    for a2, h2 in _implied_atoms(self.fn, term["cond"], si == 0):
+                        if a2 != atom:
+                            ax2 = self.fn.e(a2)
+                            if ax2 is not None and ax2.get("m") not in ASSERT_MACROS:
+                                adds_ |= set(self.edge_fx(b, si, a2, h2) or ())
+                self.edge_cache[key] = frozenset(adds_)
         adds = self.edge_cache[key]
         return st | adds if adds else st
 
